@@ -44,6 +44,8 @@ FILEMAP = {
     "src/pcore/prim_binary.rs": ["C19", "C15", "C13"],
     "src/rtps_lib/rtps_prim.rs": ["C20"],
     "src/rtps_lib/rtps_packet.rs": ["C20"],
+    "src/bin/pdf_printer.rs": ["C01"],
+    "src/bin/rtps_parse.rs": ["C20"],
 }
 
 SKIP_LINE = re.compile(r"^\s*(//|#\[|use |pub use |mod |pub mod |extern |\*|/\*)|println!|eprintln!|format!|debug_assert|log::|ta3_log|exit_log|panic!|unreachable!|verif_|cfg\(feature")
@@ -213,7 +215,8 @@ class Worker(threading.Thread):
         lines[ln] = new
         open(fp, "w").write("\n".join(lines))
         try:
-            rc, out = sh(["cargo", "build", "--offline", "--lib", "--features", "verif"], self.wt, self.env, 900)
+            tgt = ["--bins"] if path.startswith("src/bin/") else ["--lib"]
+            rc, out = sh(["cargo", "build", "--offline", "--features", "verif"] + tgt, self.wt, self.env, 900)
             if rc != 0:
                 rec["status"] = "stillborn"; return rec
             rc, out = sh(["cargo", "test", "--offline", "--lib"], self.wt, self.env, 600)
